@@ -10,7 +10,7 @@ META = {
                   "ascon{128,128a,80pq}_masked_aead_decrypt", "ascon_aead_check_tag", "ascon_aead_decrypt_8/16"],
     "bounds": "shape (algorithm, AD length, ciphertext length, split, back end) concrete per query; key, nonce, AD, ciphertext, presented tag and "
               "prior plaintext buffer symbolic and unconstrained; clen < 16 guard for every clen 0..15; check_tag for every size 0..16 x plaintext 0..5",
-    "outside": "the cryptographic statement that no second tag/ciphertext collides (not a property of the code); lengths outside the grid",
+    "outside": "the cryptographic statement that no second tag/ciphertext collides (not a property of the code); lengths outside the grid, in particular inputs of 2^32 bytes and more",
     "assumptions": ["decided statement: decrypt returns 0 iff presented tag == Tag_spec(key,nonce,AD,c); plaintext == spec plaintext on success, "
                     "all-zero on failure; this subsumes every bit flip / truncation / extension case relative to the specification's tag function",
                     "transcript form (permutation as free function) composed with C08"],
